@@ -236,23 +236,22 @@ impl StreamAlphaNode {
                 }
                 WindowType::Tumbling => {
                     let window_start = (current_time / window_duration_ms) * window_duration_ms;
+                    let window_end = window_start + window_duration_ms;
 
-                    // If we've moved to a new window, clear old events
+                    // Track the window we are in. Clearing the whole buffer here would
+                    // also drop the event that was just accepted into the new window;
+                    // events of other windows are removed below instead.
                     if self.last_window_start != 0 && window_start != self.last_window_start {
-                        self.events.clear();
                         self.last_window_start = window_start;
                     } else if self.last_window_start == 0 {
                         self.last_window_start = window_start;
                     }
 
-                    // Remove events from previous windows
-                    while let Some(event) = self.events.front() {
-                        if event.metadata.timestamp < window_start {
-                            self.events.pop_front();
-                        } else {
-                            break;
-                        }
-                    }
+                    // Keep only the events of the current window
+                    self.events.retain(|event| {
+                        event.metadata.timestamp >= window_start
+                            && event.metadata.timestamp < window_end
+                    });
                 }
                 WindowType::Session { timeout } => {
                     let timeout_ms = timeout.as_millis() as u64;
